@@ -751,7 +751,8 @@ theorem execCore_good : ∀ (o : Op) (m : M), Good m (execCore o m)
       exact raise_good _ ((e1.trans (depthCheck_spec hd)).trans ⟨⟨[], rfl⟩, ⟨[], rfl⟩, rfl⟩)
     · have hb := exec_good body (enterCall (.other ob) 0 { m with hbCur := ob, cg := cgv })
       have hcf : Good m (callFinish (.other ob) 0 (thenTick (exec body (enterCall (.other ob) 0 { m with hbCur := ob, cg := cgv })))) :=
-        callFinish_good (k := .other ob) (declared := 0) (fs := [⟨.function, m.r⟩]) rfl rfl rfl rfl (thenTick_good hb)
+        callFinish_good (k := .other ob) (declared := 0) (m := m) (m2 := enterCall (.other ob) 0 { m with hbCur := ob, cg := cgv })
+          (fs := [⟨.function, m.r⟩]) rfl rfl rfl rfl (thenTick_good hb)
       exact hbFinish_good hcf
 end
 
